@@ -54,6 +54,7 @@ THEOREMS = {
         ("XV.Rx.matchAt_ge", _PR),
         ("XV.Rx.matchAt_le_size", _PR),
         ("XV.Rx.matchAt_minLen", "XonshVerif.Proofs.RegexMinLen"),
+        ("XV.Pipe.parse_string_total", "XonshVerif.Properties.C03"),
         ("XV.Peg.parser_total", "XonshVerif.Properties.C03"),
         ("XV.Peg.verdict_independent_of_fuel", "XonshVerif.Properties.C03"),
         ("XV.Peg.selfProg_rejected", "XonshVerif.Properties.C03"),
@@ -178,7 +179,7 @@ CERTS = {
     "C02": [("XVC.ir_complete", _B), ("XVC.errortoken_unmatched", _B), ("XVC.start_demands_endmarker", _B)] + _DEAD,
     "C05": [("XVC.ir_complete", _B)] + _DEAD,
     "C03": [("XVC.ir_complete", _B)] + _RX_PROGRESS + [("XVC.gen_pseudo_progress", _R), ("XVC.shipped_tokenizer_total", _R),
-            ("XVC.wf_cert", "XonshCerts.Total"), ("XVC.shipped_parser_total", "XonshCerts.Total"), ("XVC.no_nullable_rule", "XonshCerts.Total")],
+            ("XVC.wf_cert", "XonshCerts.Total"), ("XVC.shipped_parser_total", "XonshCerts.Total"), ("XVC.shipped_parse_string_total", "XonshCerts.Total"), ("XVC.no_nullable_rule", "XonshCerts.Total")],
     "C06": [("XVC.bracket_method_table", _B)],
     "C18": [("XVC.ir_complete", _B), ("XVC.cycle_cert", _CO), ("XVC.memo_mask_correct", _CO), ("XVC.memoised_rules_expected", _CO), ("XVC.shipped_no_multi_edge_on_cycle", _CO)],
     "C04": [("XVC.ir_complete", _B), ("XVC.no_nullable_required_field", _AC), ("XVC.action_fields_nonempty", _AC), ("XVC.shipped_actions_all_ok", _AC), ("XVC.shipped_required_fields_never_none", _AC)],
